@@ -2,6 +2,7 @@
    Only statements; every proof is `exact <lemma>`. *)
 From Coq Require Import List ZArith QArith Qcanon Bool Arith.
 From Dimod Require Import Base.Util Model.Poly Model.HPoly Proofs.PolyFacts Proofs.HPolyFacts.
+From Dimod Require Model.Adj Proofs.AdjDense.
 Import ListNotations.
 Open Scope Qc_scope.
 
@@ -50,6 +51,23 @@ Theorem C03_poly_fix_removes :
   forall fs (p : hpoly) t v, In t (hfix fs p) -> In v (fst t) -> lookup fs v = None.
 Proof. exact hfix_removes. Qed.
 Print Assumptions C03_poly_fix_removes.
+
+(* the code's own in-place algorithms on the sorted adjacency structure (abc.h fix_variable:
+   neighbourhood -> linear, offset += a*linear, remove with index shift; substitute_variable
+   as repaired) have the same property at the index level *)
+Theorem C03_adjacency_fix_variable_energy :
+  forall (m : Adj.qm) (v : nat) a (s : nat -> Qc), Adj.Inv m -> (v < Adj.nvars m)%nat ->
+    Adj.energy_adj (Adj.fix_variable v a m) s =
+    Adj.energy_adj m (fun i => if (i <? v)%nat then s i else if (i =? v)%nat then a else s (i - 1)%nat).
+Proof. exact AdjDense.energy_fix_variable_adj. Qed.
+Print Assumptions C03_adjacency_fix_variable_energy.
+
+Theorem C03_adjacency_substitute_variable_energy :
+  forall (m : Adj.qm) (v : nat) k c (s : nat -> Qc), Adj.Inv m -> (v < Adj.nvars m)%nat ->
+    Adj.energy_adj (Adj.substitute_variable v k c m) s =
+    Adj.energy_adj m (fun i => if (i =? v)%nat then k * s i + c else s i).
+Proof. exact AdjDense.energy_substitute_variable_adj. Qed.
+Print Assumptions C03_adjacency_substitute_variable_energy.
 
 (* non-vacuity: 3 i^2 + 2 i + 5 i j + j with i := 2 is 49 at j = 3 *)
 Example C03_example :
